@@ -53,6 +53,7 @@ CONSTANTS
 VARIABLES
     N,         \* number of inputs (items are 1..N, arriving in this order); never changes
     Groups,    \* sequence of group sizes, e.g. <<2>> composed pair, <<1, 1>> stacked, <<3>>; never changes
+    failAt,    \* failAt[x] = leaf whose `process` returns Err for item x (0 = none); never changes
     nextIn,    \* next input to arrive (N + 1 = all arrived)
     chan,      \* chan[g]: input channel of group g's Buffer
     out,       \* out[g]:  output channel of group g's Buffer
@@ -63,8 +64,8 @@ VARIABLES
     yielded,   \* items the consumer received from the last stream
     lost       \* items dropped together with a future
 
-vars == <<N, Groups, nextIn, chan, out, buf, busy, q, hs, yielded, lost>>
-topo == <<N, Groups>>
+vars == <<N, Groups, failAt, nextIn, chan, out, buf, busy, q, hs, yielded, lost>>
+topo == <<N, Groups, failAt>>
 
 NG == Len(Groups)
 RECURSIVE SumTo(_)
@@ -120,11 +121,14 @@ Arrive ==
     /\ UNCHANGED <<out, buf, busy, q, hs, yielded, lost>> /\ UNCHANGED topo
 
 \* stream g's poll_next takes an output of stream g-1 and sends it to Buffer g
+\* (an Err item of stream g-1 is a final output: it is delivered there, not fed to layer g)
 Xfer(g) ==
     /\ GXfer(g)
-    /\ chan' = [chan EXCEPT ![g] = Append(@, Head(out[g - 1]))]
+    /\ IF Head(out[g - 1]) < 0
+       THEN yielded' = Append(yielded, Head(out[g - 1])) /\ UNCHANGED chan
+       ELSE chan' = [chan EXCEPT ![g] = Append(@, Head(out[g - 1]))] /\ UNCHANGED yielded
     /\ out' = [out EXCEPT ![g - 1] = Tail(@)]
-    /\ UNCHANGED <<nextIn, buf, busy, q, hs, yielded, lost>> /\ UNCHANGED topo
+    /\ UNCHANGED <<nextIn, buf, busy, q, hs, lost>> /\ UNCHANGED topo
 
 \* the consumer receives an item of the last stream
 Yield ==
@@ -144,13 +148,23 @@ SelectInput(g) ==
     /\ buf' = [buf EXCEPT ![g] = "proc"]
     /\ UNCHANGED <<nextIn, out, q, yielded>> /\ UNCHANGED topo
 
-\* the first leaf's process completes inside the Buffer's handler; next loop iteration
+\* An item whose `process` fails leaves the pipeline as an Err output, written -x.
+Fails(l, x) == failAt[x] = l
+
+\* the first leaf's process completes inside the Buffer's handler; next loop iteration.
+\* buffered.rs:36-39: an Err is sent to the output channel as that item's result (it does not go
+\* through the processor's queue, so it may overtake earlier items still inside), and the loop
+\* carries on
 BufDone(g) ==
     /\ GBufDone(g)
-    /\ q' = [q EXCEPT ![FirstOf(g)] = Append(@, busy[FirstOf(g)])]
+    /\ IF Fails(FirstOf(g), busy[FirstOf(g)])
+       THEN /\ out' = [out EXCEPT ![g] = Append(@, 0 - busy[FirstOf(g)])]
+            /\ UNCHANGED q
+       ELSE /\ q' = [q EXCEPT ![FirstOf(g)] = Append(@, busy[FirstOf(g)])]
+            /\ UNCHANGED out
     /\ busy' = [busy EXCEPT ![FirstOf(g)] = 0]
     /\ buf' = [buf EXCEPT ![g] = "select"]
-    /\ UNCHANGED <<nextIn, chan, out, hs, yielded, lost>> /\ UNCHANGED topo
+    /\ UNCHANGED <<nextIn, chan, hs, yielded, lost>> /\ UNCHANGED topo
 
 \* composed.rs:30-38 leaf j's `next` completes in the select! of level j+1 (as first.next();
 \* for j > first leaf: after completing level j's select! as second.next(), which drops level
@@ -163,13 +177,20 @@ Take(g, j) ==
     /\ hs' = [hs EXCEPT ![g] = [j |-> j, ph |-> "handoff", x |-> Head(q[j])]]
     /\ UNCHANGED <<nextIn, chan, out, buf, yielded>> /\ UNCHANGED topo
 
-\* `second.process(intermediate).await` completes
+\* `second.process(intermediate).await` completes.  composed.rs:33-36: an Err makes every
+\* enclosing ComposedProcessors::next return it (`?`, `Err(err) => return ..First(err)`), the
+\* Buffer sends it as that item's result and starts the next loop iteration
 HandDone(g) ==
     /\ GHandDone(g)
-    /\ q' = [q EXCEPT ![hs[g].j + 1] = Append(@, hs[g].x)]
+    /\ IF Fails(hs[g].j + 1, hs[g].x)
+       THEN /\ out' = [out EXCEPT ![g] = Append(@, 0 - hs[g].x)]
+            /\ hs' = [hs EXCEPT ![g] = NoHs]
+            /\ UNCHANGED q
+       ELSE /\ q' = [q EXCEPT ![hs[g].j + 1] = Append(@, hs[g].x)]
+            /\ hs' = [hs EXCEPT ![g].ph = "yield"]
+            /\ UNCHANGED out
     /\ busy' = [busy EXCEPT ![hs[g].j + 1] = 0]
-    /\ hs' = [hs EXCEPT ![g].ph = "yield"]
-    /\ UNCHANGED <<nextIn, chan, out, buf, yielded, lost>> /\ UNCHANGED topo
+    /\ UNCHANGED <<nextIn, chan, buf, yielded, lost>> /\ UNCHANGED topo
 
 \* `yield_now().await` completes; loop: new select!
 YieldDone(g) ==
@@ -217,10 +238,11 @@ Arrived == 1..(nextIn - 1)
 
 \* where an item is (every arrived item is in exactly one place; `lost` counts as a place here,
 \* NoDrop says it stays empty)
+Has(s, x) == x \in Range(s) \/ (0 - x) \in Range(s)
 Places(x) ==
-    Cardinality({g \in 1..NG : x \in Range(chan[g])}) + Cardinality({g \in 1..NG : x \in Range(out[g])})
+    Cardinality({g \in 1..NG : x \in Range(chan[g])}) + Cardinality({g \in 1..NG : Has(out[g], x)})
     + Cardinality({l \in 1..NL : busy[l] = x}) + Cardinality({l \in 1..NL : x \in Range(q[l])})
-    + (IF x \in Range(yielded) THEN 1 ELSE 0) + (IF x \in lost THEN 1 ELSE 0)
+    + Cardinality({i \in DOMAIN yielded : yielded[i] = x \/ yielded[i] = 0 - x}) + (IF x \in lost THEN 1 ELSE 0)
 C13_OnePlace == \A x \in Arrived : Places(x) = 1
 \* a hand-over in progress is exactly "second.process holds x"
 C13_HandoffShape ==
@@ -229,18 +251,25 @@ C13_HandoffShape ==
 
 \* never drops an intermediate item
 C13_NoDrop == lost = {}
-\* order preserving, no duplicates: the outputs so far are strictly increasing
-C13_FIFO == \A i \in 1..(Len(yielded) - 1) : yielded[i] < yielded[i + 1]
-\* every channel / queue is in order as well
+\* order preserving, no duplicates: the Ok outputs so far are strictly increasing (an Err output
+\* does not pass through the queues and may overtake - that is what the code does)
+Oks(s) == SelectSeq(s, LAMBDA v : v > 0)
 Sorted(s) == \A i \in 1..(Len(s) - 1) : s[i] < s[i + 1]
-C13_QueuesInOrder == (\A g \in 1..NG : Sorted(chan[g]) /\ Sorted(out[g])) /\ (\A l \in 1..NL : Sorted(q[l]))
-\* exactly once: at quiescence every input came out, in order
-C13_ExactlyOnce == Quiet => yielded = [i \in 1..N |-> i]
+C13_FIFO == Sorted(Oks(yielded))
+\* every channel / queue is in order as well
+C13_QueuesInOrder == (\A g \in 1..NG : Sorted(chan[g]) /\ Sorted(Oks(out[g]))) /\ (\A l \in 1..NL : Sorted(q[l]))
+\* an item comes out as Err exactly if one of its `process` calls fails
+C13_ErrIffFails == \A i \in DOMAIN yielded : (yielded[i] < 0) = (failAt[IF yielded[i] < 0 THEN 0 - yielded[i] ELSE yielded[i]] # 0)
+\* exactly once and "the stream stays alive": at quiescence every input - also those behind a
+\* failing one - came out exactly once, the Ok ones in order
+AllOut == Len(yielded) = N /\ \A x \in 1..N : Has(yielded, x)
+C13_ExactlyOnce == Quiet => AllOut
 \* with the defect: what came out is in order and the rest is accounted for as dropped
-C13_Accounted == Quiet => Range(yielded) \cup lost = 1..N /\ Range(yielded) \cap lost = {}
+C13_Accounted == Quiet => /\ \A x \in 1..N : Has(yielded, x) # (x \in lost)
+                          /\ Len(yielded) + Cardinality(lost) = N
 \* the defect needs a composed group: stacked single-leaf layers never drop anything
 C13_NoDropStacked == (\A g \in 1..NG : Groups[g] = 1) => lost = {}
 \* everything is delivered eventually
-C13_Live == <>(Quiet /\ yielded = [i \in 1..N |-> i])
+C13_Live == <>(Quiet /\ AllOut)
 C13_LiveDefect == <>Quiet
 =============================================================================
